@@ -442,9 +442,9 @@ func main() {
 		return
 	}
 	// full enumeration up to fullLen, merged search up to maxLen
-	fullLen, maxLen := 4, 5
+	fullLen, maxLen := 4, 4
 	if !c.Quick() {
-		fullLen, maxLen = 5, 6
+		fullLen, maxLen = 5, 5
 	}
 	c.SetBudget(4*time.Minute, 40*time.Minute)
 	budget := 4 * time.Minute
@@ -468,6 +468,7 @@ func main() {
 	byLen := make([]int64, 16)
 	cats := map[string]int{}
 	best := map[string][]Op{} // dedup key -> least history reaching it
+	found := map[string]*foundKey{}
 	onRec := func(si int, rb json.RawMessage) {
 		var r rec
 		json.Unmarshal(rb, &r)
@@ -483,7 +484,11 @@ func main() {
 				cats[k] += n
 			}
 		case "fail":
-			c.Fail(r.Key, r.Clause, r.Size, r.Case, r.Detail)
+			if old, ok := found[r.Key]; ok {
+				old.n++
+			} else {
+				found[r.Key] = &foundKey{rec: r, n: 1}
+			}
 		case "keys":
 			for _, k := range r.Keys {
 				if old, ok := best[k.K]; !ok || histLess(k.H, old) {
@@ -587,6 +592,7 @@ func main() {
 	c.Set("merged_search_max_length", completed)
 	c.Set("merged_search_levels", levelInfo)
 	c.Set("merged_search_executions", mergedExec)
+	reportFindings(c, found)
 	c.Set("failing_histories", failing)
 	c.Set("names", nm)
 	c.Set("ops", "newtemp | discard(T) | define(vm,class|interface|function,name) | lookup | new(vm,name|F) | call(vm,name); 1 base + <=3 temps, 3 interchangeable names (canonical order of first use) + autoloadable class F")
@@ -606,7 +612,7 @@ func main() {
 		r := execute(s, nm, dir, true)
 		c.Sample(map[string]any{"history": histString(s), "violations": len(r.Fails), "final_matrix": compactRaw(r.Raw)})
 	}
-	need := []string{"variant:resolved", "variant:unresolved", "id:own", "id:base-through-temp", "id:absent", "bool:present", "bool:absent", "open-choice->base", "auto:resolved"}
+	need := []string{"eval:resolved-on-base", "eval:unresolved", "variant:resolved", "variant:unresolved", "id:own", "id:base-through-temp", "id:absent", "bool:present", "bool:absent", "open-choice->base", "auto:resolved"}
 	for _, n := range need {
 		if cats[n] == 0 {
 			c.HarnessError("vacuous: outcome class %q never observed", n)
@@ -614,6 +620,92 @@ func main() {
 	}
 	os.RemoveAll(dir)
 	c.Finish(int64(len(best)), total, total, fmt.Sprintf("every canonical op history of length <= %d executed on fresh real VMs (%d), plus merged-state BFS to length %d (%d executions); after each history the full VM x name x probe matrix is compared with the set model (base ∪ own); distinct = distinct (model state, observation vector) pairs", fullLen, fullTotal, completed, mergedExec))
+}
+
+type foundKey struct {
+	rec rec
+	n   int
+}
+
+// opClass abstracts an op for grouping minimal failing histories of one root cause.
+func opClass(o Op) string {
+	switch o.K {
+	case opNew, opCall:
+		return "use"
+	}
+	return o.K
+}
+
+// reportFindings turns the 1-minimal failing histories into finding keys. One defect often has
+// many 1-minimal histories that differ only in *which* further op disturbs the VMs (e.g. any op
+// that binds a parser). Per violated relation, a minimal history is reported only if no shorter
+// (or equally long, lexicographically smaller) reported one of the same relation uses a subset of
+// its op classes; the others are listed in the evidence as subsumed.
+func reportFindings(c *ev.Check, found map[string]*foundKey) {
+	type item struct {
+		key   string
+		f     *foundKey
+		ops   []Op
+		class map[string]bool
+	}
+	var items []item
+	for k, f := range found {
+		cs, _ := f.rec.Case.(map[string]any)
+		var ops []Op
+		if cs != nil {
+			b, _ := json.Marshal(cs["ops"])
+			json.Unmarshal(b, &ops)
+		}
+		it := item{key: k, f: f, ops: ops, class: map[string]bool{}}
+		for _, o := range ops {
+			it.class[opClass(o)] = true
+		}
+		items = append(items, it)
+	}
+	sort.Slice(items, func(i, j int) bool {
+		if items[i].f.rec.Size != items[j].f.rec.Size {
+			return items[i].f.rec.Size < items[j].f.rec.Size
+		}
+		return items[i].key < items[j].key
+	})
+	var kept []item
+	var subsumed []string
+	for _, it := range items {
+		by := -1
+		if it.f.rec.Size > 0 && !strings.HasPrefix(it.key, "process-global-state") {
+			for ki, k := range kept {
+				if k.f.rec.Clause != it.f.rec.Clause || k.f.rec.Size == 0 {
+					continue
+				}
+				sub := true
+				for cl := range k.class {
+					if !it.class[cl] {
+						sub = false
+						break
+					}
+				}
+				if sub {
+					by = ki
+					break
+				}
+			}
+		}
+		if by >= 0 {
+			subsumed = append(subsumed, it.key+"  (reported under: "+kept[by].key+")")
+			kept[by].f.n += it.f.n
+			continue
+		}
+		kept = append(kept, it)
+	}
+	for _, k := range kept {
+		for i := 0; i < k.f.n; i++ {
+			c.Fail(k.key, k.f.rec.Clause, k.f.rec.Size, k.f.rec.Case, k.f.rec.Detail)
+		}
+	}
+	if len(subsumed) > 60 {
+		subsumed = append(subsumed[:60], fmt.Sprintf("... and %d more", len(subsumed)-60))
+	}
+	c.Set("subsumed_minimal_histories", subsumed)
 }
 
 func compactRaw(raw []string) []string {
